@@ -15,7 +15,15 @@ SyncLoop.tla, queue laws of Wallet/Trace_Wallet.tla).
    ends at the tip and carries Scanned exactly on the scanned heights; suggestions are exactly the entries of
    priority >= Historic in priority-then-height order; every client step makes progress; the loop terminates
    with everything scanned in no more steps than blocks.
+5. The wallet-level insertion sequence (WalletQueue.tla): which (range, priority) insertions update_chain_tip,
+   scan_complete (Scanned + the FoundNote extension to the shards of the found notes, over EVERY pool) and rewinds
+   generate.  TLC checks the small wallet MC_WalletQueue (the local replace_queue_entries equals the global fold of
+   the dominance rule, the literal SpanningTree transcription agrees, FoundNote covers the union of the pools'
+   extents, nothing between birthday and tip is lost); then every trace of step 4 -- extended by histories whose
+   Sapling / Orchard / Ironwood shard boundaries differ -- is validated a second time against Trace_WalletQueue.tla:
+   after every operation the whole `scan_queue` table, ranges AND priorities, must be the specification's.
 """
+import re
 import json
 import os
 
@@ -58,6 +66,81 @@ def judge(ctx, res, edges_path, base):
                             "edge": m["edge"], "got": m["got"]},
                       "SpanningTree disagrees with the dominance rule: insertions %s + %s expected %s got %s"
                       % (m["edge"]["pre"], m["edge"]["step"], m["edge"]["vec"], m["got"]))
+
+
+WQ_INVARIANTS = "FoldEq LayerB Contiguous ScannedExact NoneLost BelowBirthday NoOpenAdjacent ChainedIsUnion SameAsLayerA"
+
+
+def write_wq_cfg(path, maxops, maxnotes, menu):
+    with open(path, "w") as f:
+        f.write("SPECIFICATION Spec\nCONSTANTS\n  HLo = 0\n  HHi = 13\n  PruningDepth = 4\n  VerifyLookahead = 2\n"
+                "  ShardLeaves = 2\n  Birthday = 2\n  MaxTop = 11\n  MaxOps = %d\n  MaxNotes = %d\n  Menu = %d\n"
+                "VIEW View\nINVARIANTS %s\nPROPERTIES ScanCovers TipMonotone\nCHECK_DEADLOCK FALSE\n"
+                % (maxops, maxnotes, menu, WQ_INVARIANTS))
+
+
+def wq_stage(ctx):
+    d = ctx.path("wqspec")
+    os.makedirs(d, exist_ok=True)
+    import shutil
+    for a in ("lib", AREA):
+        src = lib.spec_dir(a)
+        for fn in os.listdir(src):
+            if fn.endswith(".tla") or fn.endswith(".cfg"):
+                shutil.copy(os.path.join(src, fn), os.path.join(d, fn))
+    return d
+
+
+def wq_validate(ctx, d, path, explain=False):
+    return lib.tlc_validate(ctx, d, "Trace_WalletQueue", "Trace_WalletQueue.cfg", path, timeout=3000,
+                            env_extra={"EXPLAIN": "1" if explain else "0"})
+
+
+def wq_stats(res, st):
+    """Vacuity statistics printed by Trace_WalletQueue.tla (see TTip / TScan there)."""
+    for t in res.tuples("WQSTAT"):
+        if t.startswith('"tip"'):
+            kind = t.split(",")[1].strip().strip('"')
+            st["tip_" + kind] = st.get("tip_" + kind, 0) + 1
+            if "shard-above-scanned" in t:
+                st["tip_shard_above_scanned"] = st.get("tip_shard_above_scanned", 0) + 1
+        elif t.startswith('"scan"'):
+            st["scan_multi_pool"] = st.get("scan_multi_pool", 0) + 1
+            if "extents-differ" in t:
+                st["scan_extents_differ"] = st.get("scan_extents_differ", 0) + 1
+            for pool in re.findall(r"(\w) \|-> TRUE", t):
+                st["scan_needs_" + pool] = st.get("scan_needs_" + pool, 0) + 1
+
+
+def wq_reject(ctx, d, path, n, detail):
+    """The first event whose logged scan_queue table is not the specification's: report it with the expected table."""
+    with open(path) as f:
+        lines = f.read().splitlines()
+    start = max(k for k in range(n) if json.loads(lines[k])["a"] == "reset")
+    hist = [json.loads(x) for x in lines[start:n]]
+    expected = None
+    try:
+        hp = ctx.path("wq_rejected_history.ndjson")
+        with open(hp, "w") as f:
+            for e in hist:
+                f.write(json.dumps(e) + "\n")
+        _, _, _, r = wq_validate(ctx, d, hp, explain=True)
+        for line in r.out.splitlines():
+            if line.startswith('<<"WQEXPLAIN", '):
+                m = re.match(r'<<"WQEXPLAIN", (\d+), (".*")>>$', line)
+                if m:
+                    expected = json.loads(json.loads(m.group(2)))
+                    break
+    except Exception:
+        expected = None
+    ev = json.loads(lines[n - 1])
+    lib.violation(ctx, {"property": "C15", "kind": "wallet_queue_priorities", "first_unmatched_event": n,
+                        "event": ev, "expected": expected, "history": hist},
+                  "event %d (%s) of the recorded wallet history leaves a scan_queue table that is not the dominance rule "
+                  "applied to the insertions the documented behaviour of that operation generates (WalletQueue.tla): "
+                  "expected %s, wallet has %s [%s]"
+                  % (n, ev.get("a"), (expected or {}).get("expected"), (ev.get("post") or {}).get("queue"),
+                     json.dumps({k: v for k, v in ev.items() if k != "post"})[:400]))
 
 
 def run(ctx):
@@ -111,6 +194,18 @@ def run(ctx):
     lib.require_coverage(r, ["UpdateTip", "Scan", "EnvBlock", "EnvRewind"])
     lib.account_tlc(ctx, r)
 
+    # (5a) the wallet-level insertion sequence on the model: MC_WalletQueue
+    wqd = wq_stage(ctx)
+    lib.sany(os.path.join(wqd, "Trace_WalletQueue.tla"))
+    wq_models = [(3, 1, 2, 30000)] if ctx.quick() else [(3, 2, 2, 150000), (4, 2, 1, 60000)]
+    for (maxops, maxnotes, menu, floor) in wq_models:
+        cfg = "MC_WQ_%d_%d_%d.cfg" % (maxops, maxnotes, menu)
+        write_wq_cfg(os.path.join(wqd, cfg), maxops, maxnotes, menu)
+        r = lib.tlc(ctx, wqd, "MC_WalletQueue", cfg, workers=8, timeout=3000, coverage=False)
+        if r.distinct < floor:
+            raise lib.ToolError("vacuity: MC_WalletQueue explored only %d states (%s)" % (r.distinct, cfg))
+        lib.account_tlc(ctx, r)
+
     # (4) the real wallet's queue and the real sync loop
     wbin = lib.cargo_build("h_wallet", ["c01_driver"])
     wd = ctx.path("wspec")
@@ -122,8 +217,9 @@ def run(ctx):
                 import shutil
                 shutil.copy(os.path.join(src, fn), os.path.join(wd, fn))
     plans = [("sync", ["sync-scenarios", "8" if ctx.quick() else "40"]), ("hist", ["8" if ctx.quick() else "40", "70"]),
-             ("shards", ["shard-scenarios", "6" if ctx.quick() else "30"])]
+             ("shards", ["shard-scenarios", "6" if ctx.quick() else "30", "pools", "12" if ctx.quick() else "48"])]
     qstats = {"suggest": 0, "client_steps": 0, "syncdone": 0, "queue_states": 0}
+    wqstats = {}
     for i, (name, args) in enumerate(plans):
         path = ctx.path("trace_%s.ndjson" % name)
         lib.run_bin(os.path.join(wbin, "c01_driver"), [path] + args, env_extra={"VERIF_SEED": str(ctx.seed * 100 + i), "VERIF_SUGGEST": "1"}, timeout=3000)
@@ -144,6 +240,14 @@ def run(ctx):
                                              env_extra=c01.trace_env(ledger=True))
         if acc:
             ctx.traces += n
+            # (5b) the same trace against the wallet-level insertion rules: ranges AND priorities of the whole table
+            acc2, n2, detail2, r2 = wq_validate(ctx, wqd, path)
+            wq_stats(r2, wqstats)
+            if acc2:
+                ctx.traces += n2
+            else:
+                wq_reject(ctx, wqd, path, n2, detail2)
+                break
         else:
             with open(path) as f:
                 lines = f.read().splitlines()
@@ -155,7 +259,19 @@ def run(ctx):
             break
     if not ctx.violations and (qstats["syncdone"] < 4 or qstats["client_steps"] < 20):
         raise lib.ToolError("vacuity: sync loop not exercised: %s" % qstats)
+    # what the wallet-level validation must have seen: batches that found notes in two pools with different shard
+    # extents in which a pool's own extent decided the table (Sapling, Orchard; Ironwood on the thorough tier), tip
+    # updates through the Verify, the ChainTip and the Historic rule, with and without shard metadata
+    need = {"scan_extents_differ": 8, "scan_needs_S": 3, "scan_needs_O": 3, "tip_verify": 4, "tip_verify-empty": 1,
+            "tip_chaintip": 10, "tip_historic": 10, "tip_historic+shard": 1, "tip_shard_above_scanned": 2}
+    if not ctx.quick():
+        need.update({"scan_needs_I": 2, "scan_extents_differ": 30})
+    if not ctx.violations:
+        short = {k: (wqstats.get(k, 0), v) for k, v in need.items() if wqstats.get(k, 0) < v}
+        if short:
+            raise lib.ToolError("vacuity: wallet-level insertion rules not exercised (seen, needed): %s" % short)
     ctx.extra["wallet_queue_stats"] = qstats
+    ctx.extra["wallet_queue_priority_stats"] = wqstats
     ctx.extra["layer_b_shape"] = {"agree": shape_agree, "differs": shape_differs,
                                   "note": "tree shape vs transcription; informational only, never a violation"}
     ctx.extra["panics_observed_after_empty_range"] = panics_seen
@@ -193,6 +309,18 @@ def replay(ctx, path):
         else:
             lib.violation(ctx, rep, "replayed history still rejected at event %d: %s" % (n, detail[:800]))
         return
+    if rep.get("kind") == "wallet_queue_priorities":
+        wqd = wq_stage(ctx)
+        tp = ctx.path("replay_trace.ndjson")
+        with open(tp, "w") as f:
+            for e in rep["history"]:
+                f.write(json.dumps(e) + "\n")
+        acc, n, detail, _ = wq_validate(ctx, wqd, tp)
+        if acc:
+            lib.log("replay: recorded history is accepted by the wallet-level specification")
+        else:
+            wq_reject(ctx, wqd, tp, n, detail)
+        return
     ep = ctx.path("replay_edge.ndjson")
     with open(ep, "w") as f:
         f.write(json.dumps(rep["edge"]) + "\n")
@@ -216,3 +344,33 @@ def selftest(ctx):
     if not res["mismatches"]:
         raise lib.ToolError("selftest: perturbed expectation was not reported")
     lib.log("selftest ok: perturbed edge rejected")
+    # wallet level: one logged priority changed => Trace_WalletQueue rejects exactly that event; a changed shard end
+    # height in a `roots` event => rejected there
+    wbin = lib.cargo_build("h_wallet", ["c01_driver"])
+    wqd = wq_stage(ctx)
+    path = ctx.path("trace_self.ndjson")
+    lib.run_bin(os.path.join(wbin, "c01_driver"), [path, "shard-scenarios", "0", "pools", "4"],
+                env_extra={"VERIF_SEED": str(ctx.seed), "VERIF_SUGGEST": "1"}, timeout=3000)
+    acc, n, _, _ = wq_validate(ctx, wqd, path)
+    if not acc:
+        raise lib.ToolError("selftest: fresh trace rejected at %d" % n)
+    with open(path) as f:
+        evs = [json.loads(x) for x in f.read().splitlines()]
+    k = next(i for i, e in enumerate(evs) if e["a"] == "scan" and any(q[2] == 4 for q in e["post"]["queue"]))
+    bad = json.loads(json.dumps(evs))
+    for q in bad[k]["post"]["queue"]:
+        if q[2] == 4:
+            q[2] = 3
+            break
+    k2 = next(i for i, e in enumerate(evs) if e["a"] == "roots" and e["post"].get("chk"))
+    bad2 = json.loads(json.dumps(evs))
+    bad2[k2]["h"] += 1
+    for (name, trace, want) in (("priority", bad, k + 1), ("root", bad2, k2 + 1)):
+        bp = ctx.path("trace_self_%s.ndjson" % name)
+        with open(bp, "w") as f:
+            for e in trace:
+                f.write(json.dumps(e) + "\n")
+        acc, n, _, _ = wq_validate(ctx, wqd, bp)
+        if acc or n != want:
+            raise lib.ToolError("selftest: perturbed %s at event %d: accepted=%s first rejected=%s" % (name, want, acc, n))
+    lib.log("selftest ok: perturbed priority / shard end rejected at their events")
